@@ -341,9 +341,63 @@ def drv_body(ctx, case):
         ctx.fail(f"driver-energy:{combo}", case, f"returned energy {out['e']!r}")
 
 
+# ---- the driver's own choice of entry point ------------------------------------------------------------------------------------
+SELECT_COMBOS = [("forward", True), ("reverse", False), ("forward", False), ("reverse", True)]
+
+
+@st.composite
+def select_case(draw, tier, shard=0, nshards=1):
+    combos = [c for i, c in enumerate(SELECT_COMBOS) if i % nshards == shard] or SELECT_COMBOS
+    ad_mode, dosr = draw(st.sampled_from(combos))
+    wt = draw(st.sampled_from(["rhf", "uhf"]))
+    p = draw(sl.problem(walker_types=(wt,), shapes={"rhf": [(3, (1, 1))], "uhf": [(3, (2, 1))]}, n_walkers=(6,), nchol=(2,), dts=(0.05,), chol_scale=(0.8, 1.2)))
+    p["n_batch"] = 1
+    p.update({"ad_mode": ad_mode, "do_sr": dosr})
+    return p
+
+
+def select_body(ctx, case):
+    """For a converged trial the orbital relaxation is the identity, so what driver.afqmc writes must not depend on the orbital_rotation
+    option; with in-block reconfiguration it must also equal what a run without AD writes. (The entry points themselves are compared in
+    entry_points_agree; this is about which of them the driver picks for an option combination.)"""
+    from vlib import runs
+
+    P = sl.Problem(case)
+    if not P.converged:
+        ctx.count("rejected:scf-not-converged")
+        hypothesis.assume(False)
+    combo = f"ad_mode={case['ad_mode']},do_sr={case['do_sr']},walker_type={case['walker_type']}"
+    ctx.case(case, nontrivial=True, classes=["driver-selection:" + combo])
+    smp = sampling.sampler(n_prop_steps=4, n_ene_blocks=2, n_sr_blocks=2, n_blocks=3)
+    o = np.diag(np.arange(P.norb, dtype=float))
+    obs = [np.stack([o, o]), 0.0]
+    runs_ = {}
+    variants = [("rotation-on", case["ad_mode"], True), ("rotation-off", case["ad_mode"], False)] + ([("no-ad", None, True)] if case["do_sr"] else [])
+    try:
+        for label, mode, orot in variants:
+            opts = runs.default_options(seed=int(case["seed"]) % 100000, n_walkers=P.nw, dt=P.dt, n_prop_steps=4, n_ene_blocks=2, n_sr_blocks=2, n_blocks=3, walker_type=case["walker_type"],
+                                        ad_mode=mode, orbital_rotation=orot, do_sr=bool(case["do_sr"]))
+            runs_[label] = runs.run_driver(P.ham_data0, P.ham, P.prop, P.trial, P.wave_data, smp, obs if mode else None, opts)["samples_raw"]
+    except Exception as ex:
+        ctx.fail(f"driver-selection:raised-{type(ex).__name__}:{combo}", case, f"{type(ex).__name__}: {str(ex)[:300]}")
+        return
+    ref = runs_["rotation-on"]
+    if ref is None or not np.all(np.isfinite(ref)):
+        ctx.fail(f"driver-selection:samples:{combo}", case, f"samples_raw.dat: {None if ref is None else ref.tolist()}")
+        return
+    for label in [v[0] for v in variants[1:]]:
+        other = runs_[label]
+        if other is None or other.shape != ref.shape:
+            ctx.fail(f"driver-selection:samples:{combo}", case, f"{label}: samples_raw.dat has shape {None if other is None else other.shape}, expected {ref.shape}")
+            return
+        ctx.check_close(f"driver-selection:{label}-vs-rotation-on:energies:{combo}", case, f"block energies {label} - rotation-on [{combo}]", other[:, 1], ref[:, 1], 1e-5, max(1.0, float(np.max(np.abs(ref[:, 1])))))
+        ctx.check_close(f"driver-selection:{label}-vs-rotation-on:weights:{combo}", case, f"block weights {label} - rotation-on [{combo}]", other[:, 0], ref[:, 0], 1e-5, max(1.0, float(np.max(np.abs(ref[:, 0])))))
+
+
 SUBCHECKS = [
     SubCheck("option_matrix_callable", body=matrix_body, strategy=matrix_case, examples={"quick": 4, "thorough": 24}, shards={"quick": 16, "thorough": 16}, shrink=False),
     SubCheck("entry_points_agree", body=agree_body, strategy=agree_case, examples={"quick": 6, "thorough": 60}, shards={"quick": 4, "thorough": 8}, shrink=False),
     SubCheck("driver_option_matrix", body=drv_body, strategy=drv_case, examples={"quick": 1, "thorough": 4}, shards={"quick": 2, "thorough": 16}, shrink=False),
+    SubCheck("driver_selects_entry_point", body=select_body, strategy=select_case, examples={"quick": 1, "thorough": 6}, shards={"quick": 4, "thorough": 8}, shrink=False),
     SubCheck("single_block_definition", body=define_body, strategy=define_case, examples={"quick": 12, "thorough": 120}, shards={"quick": 4, "thorough": 8}, shrink=False),
 ]
